@@ -166,9 +166,18 @@ class Phy:
 
 
 # ---------------------------------------------------------------------------------------------- Spec
-RX_LAT = 2          # cycles the UTMI side may lag behind the ULPI bus (the statement fixes no latency)
-QUIET = 4           # idle-bus cycles with PHY registers == request after which older requested values are forgotten
+RX_LAT = 4          # cycles the UTMI side may lag behind the ULPI bus (the statement fixes no latency; the design has 1-2)
+QUIET = 8           # idle-bus cycles with PHY registers == request after which older requested values are forgotten
 TX_PROTO = ("cmd-changed-before-accept", "cmd-withdrawn", "stp-outside-transaction", "unexpected-register-read")
+
+
+def _age(hist, cur):
+    """hist: ((value, age), ...) sorted by age, age 0 = the reference value of the previous cycle.  Returns the history after a
+    cycle whose reference value is `cur`; values not seen as reference for more than RX_LAT cycles are forgotten."""
+    out = [(cur, 0)]
+    for v, a in hist:
+        if v != cur and a < RX_LAT: out.append((v, a + 1))
+    return tuple(out)
 
 
 def decode_flags(v):
@@ -199,7 +208,7 @@ class UlpiSpec(Spec):
 
     # env = (p, u, c, bud, rxm, txm, regm)
     #   u    None | (packet index, byte index)
-    #   rxm  (queue of (byte, age), refcmd history (t, t-1, t-2), refactive history, register-write-outstanding tag countdown)
+    #   rxm  (queue of (byte, age), reference flag history, reference RxActive history (see _age), register-write-outstanding tag countdown)
     #   txm  1 if STP is due in the coming cycle
     #   regm (S_fc, S_otg, quiet)
     def build(self):
@@ -207,7 +216,7 @@ class UlpiSpec(Spec):
 
     def env0(self):
         r = self.req[0]
-        return (PHY0, None, 0, self.bud0, ((), (None,) * (RX_LAT + 1), (0,) * (RX_LAT + 1), 0, 0), 0,
+        return (PHY0, None, 0, self.bud0, ((), ((None, 0),), ((0, 0),), 0, 0), 0,
                 (frozenset([PHY_RESET_REGS[0], r[0]]), frozenset([PHY_RESET_REGS[1], r[1]]), 0))
 
     def prologue(self, cur):
@@ -352,11 +361,13 @@ class UlpiSpec(Spec):
 
         # ---- receive side (C22)
         queue, hcmd, hact, rw, uq = rxm
-        ref = hcmd[0]
+        # hcmd / hact: the values the reference (decoded flags of the most recent RX CMD / PHY RxActive) had during the
+        # last RX_LAT+1 cycles, canonically as ((value, cycles since it last was the reference), ...) - age 0 = current
+        ref = hcmd[0][0]
         for e in events:
-            if e[0] == "rxcmd": ref = e[1]
-        hcmd = (ref,) + hcmd[:-1]
-        hact = (p2[3] if p2[0] == "R" else 0,) + hact[:-1]
+            if e[0] == "rxcmd": ref = decode_flags(e[1])
+        hcmd = _age(hcmd, ref)
+        hact = _age(hact, p2[3] if p2[0] == "R" else 0)
         # tag receive findings that happen while a register write is outstanding (requested settings != PHY registers,
         # or the DIR phase aborted a register command): a different mechanism in the design than plain receive
         # (sticky for the whole DIR-high phase plus the latency window after it)
@@ -383,19 +394,20 @@ class UlpiSpec(Spec):
                 self.cover["rx-byte-delivered"] += 1
             if queue and queue[0][1] >= RX_LAT:
                 raise Violation("rx-byte-lost" + sfx, dict(byte=queue[0][0], phy=p, choice=pc))
-            if o.rx_active not in hact:
+            if o.rx_active not in [v for v, _ in hact]:
                 raise Violation(("rx-active-stuck-high" if o.rx_active else "rx-active-missing") + sfx,
-                                dict(rx_active=o.rx_active, phy_rxactive_last_cycles=hact, phy=p, choice=pc))
-            if None not in hcmd:
+                                dict(rx_active=o.rx_active, phy_rxactive_value_and_age=hact, phy=p, choice=pc))
+            admitted = [v for v, _ in hcmd]
+            if None not in admitted:
                 got = (o.line_state, o.vbus_valid, o.session_end)
-                if got not in [decode_flags(v) for v in hcmd]:
+                if got not in admitted:
                     raise Violation("rx-flags-mismatch" + sfx, dict(got=dict(line_state=got[0], vbus_valid=got[1], session_end=got[2]),
-                                                               last_rxcmds=hcmd, phy=p, choice=pc))
+                                                               recent_rxcmd_flags_and_age=hcmd, phy=p, choice=pc))
         elif o.rx_valid and queue:
             queue = queue[1:]
         queue = tuple((b, a + 1) for b, a in queue)
         if "rx" not in checks:
-            queue = (); hcmd = (None,) * (RX_LAT + 1); hact = (0,) * (RX_LAT + 1); rw = uq = 0
+            queue = (); hcmd = ((None, 0),); hact = ((0, 0),); rw = uq = 0
         if o.rx_active: self.cover["rx-active"] += 1
 
         # ---- register bookkeeping (C24)
